@@ -607,10 +607,14 @@ func c05GenFault(r *rand.Rand, j int) *c05FInput {
 		in.Fault = &c05FFault{Kind: f.Kind, Table: f.Table, Block: j / 24}
 	}
 	base := histBase(r, 0)
-	switch j % 5 {
-	case 1: // header-only base: the branches fill the table in
+	// a healthy `--no-commit` merge always works on several blocks: its result is read back in batches of
+	// 255 rows (Merger.SortedRows with the removed-columns set), and only a result longer than one batch
+	// shows what happens between two batches
+	bigResult := in.Mode == "no-commit" && in.Fault == nil
+	switch {
+	case j%5 == 1 && !bigResult: // header-only base: the branches fill the table in
 		base.Rows = nil
-	case 3: // several blocks
+	case j%5 == 3 || bigResult: // several blocks
 		big := 260 + r.Intn(300)
 		for i := len(base.Rows); i < big; i++ {
 			base.Rows = append(base.Rows, []string{fmt.Sprintf("%04d", i), []string{"p", "q", "r", ""}[r.Intn(4)], []string{"p", "q", ""}[r.Intn(3)], fmt.Sprint(i % 3)})
